@@ -139,10 +139,14 @@ pub fn step(ctx: &Ctx, w: &World, ev: &mut Ev) {
                     } else {
                         smul_div(spot_pnl, base_moved(ctx, v) as i128, pos.size.abs()).unwrap_or(0)
                     };
-                    let exp = (pos.margin as i128 + delta - f).max(0);
-                    if p2.margin as i128 != exp {
+                    // no floor at zero here: a margin that cannot bear the charge means part of it is not charged at all
+                    let exp = pos.margin as i128 + delta - f;
+                    if exp < 0 && pos.margin as i128 + delta < 0 && p2.margin == 0 {
+                        // a realised loss beyond the margin (not a funding matter): the engine floors the margin at zero
+                        ev.count("reduce_with_realised_loss_beyond_margin");
+                    } else if p2.margin as i128 != exp {
                         let diff = p2.margin as i128 - exp;
-                        let shape = if diff == f { "diff_eq_funding" } else if diff == -f { "charged_twice" } else { "other" };
+                        let shape = if exp < 0 && p2.margin == 0 { "shortfall_forgiven" } else if diff == f { "diff_eq_funding" } else if diff == -f { "charged_twice" } else { "other" };
                         ev.violation("charge_exact", &format!("{},{},{}", kind.s(), sign(f), shape), json!({"margin_pre": pos.margin.to_string(), "margin_post": p2.margin.to_string(), "expected": exp.to_string(), "funding_owed": f.to_string()}));
                     }
                 }
